@@ -19,6 +19,9 @@ impl Metrics {
     { unimplemented!() }
     #[verifier::external_body]
     pub fn is_op(&self) -> (r: bool) ensures r == self.op { unimplemented!() }
+    /// `Metrics::Noop` / `Metrics::new()`: the ledger that records nothing
+    #[verifier::external_body]
+    pub fn vx_noop() -> (r: Self) ensures !r.op, forall|t: MetricType| #[trigger] r.cnt(t) == 0, r.life@.len() == 0 { unimplemented!() }
     #[verifier::external_body]
     pub fn track_eviction(&mut self, num_seconds: i64)
         ensures final(self).op == old(self).op, final(self).ctr == old(self).ctr,
